@@ -44,8 +44,8 @@ def run(rep):
     rep.assumptions = ["grammars restricted to Peg!WellFormed (DESIGN.md section 7)",
                        "regexes of the shape pre[set]{min,}post; base types ID INT BOOL STRING; ASCII inputs"]
     # (M) + (S->I): bounded universes, every case replayed
-    for fam, depth in ([("ops", 1), ("kinds", 1), ("opts", 1)] if quick else
-                       [("ops", 2), ("kinds", 2), ("asg", 1), ("mods", 1), ("opts", 2)]):
+    for fam, depth in ([("ops", 1), ("kinds", 1), ("opts", 1), ("alias", 1)] if quick else
+                       [("ops", 2), ("kinds", 2), ("asg", 1), ("mods", 1), ("opts", 2), ("alias", 1)]):
         P.judge_universe(rep, PID, fam, depth, maxlen=4 if quick else "")
     rep.exhaustive = True
     ng, per = (100, 8) if quick else (1500, 10)
